@@ -406,7 +406,9 @@ def part_histories(res, rng, n_tuples):
         first = p.new_module(api.m.Filter)
         n_targets = rng.randint(2, 7)
         mods, chosen, mappings = [], [], []
+        dead = set()
         for i in range(n_targets):
+            beyond = False
             if dependent and rng.random() < 0.3:
                 T, cname, sc = rng.choice(dependent)
                 cls = MODULE_CLASSES[sp[T].mtype]
@@ -428,8 +430,16 @@ def part_histories(res, rng, n_tuples):
             top = (hi - lo) if ckind == "compact" else 32768     # as in part_drive: a compact target's window is in its own units
             a, b = rng.choice([(0, top), (top, 0), (rng.randint(0, top), rng.randint(0, top))])
             number = 0 if rng.random() < 0.2 else cls.controllers[cname].number
+            if number and rng.random() < 0.1:
+                # a mapping that names a controller number the target does not have (a bundle re-pointed at another type):
+                # nothing to deliver there
+                number = len(cls.controllers) + rng.randint(1, 4)
+                beyond = True
+                res.count("history_mappings_beyond_the_targets_controllers")
             mappings.append((a, b, number, 0, 0, 0, 0, 0))
             chosen.append([T, cname, ckind, lo, hi, a, b, number])
+            if beyond:
+                dead.add(i)
             mods.append(m)
         mc = p.new_module(MultiCtl, gain=rng.choice([256, 256, 1024, rng.randint(0, 1024)]), quantization=rng.choice([32768, 32768, 7, rng.randint(0, 32768)]),
                           mappings=mappings)
@@ -438,7 +448,7 @@ def part_histories(res, rng, n_tuples):
         # controller number
         for j in range(1, n_targets):
             i = j - 1
-            if chosen[i][7] == chosen[j][7] != 0 and chosen[i][0] != chosen[j][0] and "compact" not in (chosen[i][2], chosen[j][2]) \
+            if i not in dead and j not in dead and chosen[i][7] == chosen[j][7] != 0 and chosen[i][0] != chosen[j][0] and "compact" not in (chosen[i][2], chosen[j][2]) \
                     and "dependent" not in (chosen[i][2], chosen[j][2]) and rng.random() < 0.7:
                 mc.mappings.values[j] = mc.mappings.values[i]
                 chosen[j][5], chosen[j][6] = chosen[i][5], chosen[i][6]
@@ -471,7 +481,7 @@ def part_histories(res, rng, n_tuples):
                     res.violation(f"C20:out-of-range:{ckind}", f"value={v}: {T}.{cname} holds {got} outside [{lo},{hi}] (bundle {case})", dict(case, input=v, target=i))
                     bad = True
                     break
-                if number == 0 or i in unplugged or ckind == "dependent":
+                if number == 0 or i in dead or i in unplugged or ckind == "dependent":
                     continue
                 pv = prev[i]
                 if pv is not None and ((a <= b and got < pv) or (a > b and got > pv)):
@@ -491,7 +501,7 @@ def part_histories(res, rng, n_tuples):
         if mc.gain == 256 and mc.quantization == 32768:
             for i, (m, c) in enumerate(zip(mods, chosen)):
                 T, cname, ckind, lo, hi, a, b, number = c
-                if number == 0 or i in unplugged or ckind == "dependent" or {a, b} != {0, (hi - lo) if ckind == "compact" else 32768}:
+                if number == 0 or i in dead or i in unplugged or ckind == "dependent" or {a, b} != {0, (hi - lo) if ckind == "compact" else 32768}:
                     continue
                 ends = []
                 for v in (0, 32768):
@@ -518,7 +528,7 @@ def part_histories(res, rng, n_tuples):
                 i = idx - 1
                 if i in unplugged:
                     role = "unplugged target"
-                elif chosen[i][7] == 0:
+                elif chosen[i][7] == 0 or i in dead:
                     role = "unmapped target"
                 else:
                     allowed, role = {chosen[i][1]}, "mapped target"
